@@ -234,6 +234,9 @@ func runWorld(p *Prop, t *simrt.Tape, trace bool) (res Result) {
 	w := newW(p.ID, t, trace)
 	debug.SetPanicOnFault(true)
 	simrt.Begin(w.World)
+	// safety net: no world needs anywhere near this many yields; a runaway loop in the library becomes a
+	// deterministic step-budget violation instead of a hung worker (worlds set tighter per-call budgets)
+	w.World.StepLimit = 30000000
 	func() {
 		defer func() {
 			if r := recover(); r != nil {
